@@ -81,3 +81,39 @@ func TestReencodeKeepsDecodedBytes(t *testing.T) {
 		}
 	}
 }
+
+// Detached worlds (LD proofs): signed_by / signed_with must agree with an independent verification of "<header>..<sig>".
+func TestDetachedFactsAgreeWithReferenceVerifier(t *testing.T) {
+	rapid.Check(t, func(rt *rapid.T) {
+		w := testWorld("fixed")
+		w.Detached, w.AlgFromKey = true, true
+		w.Header = Header{RawM("b64", "false"), RawM("crit", `["b64"]`)}
+		w.Payload = []byte("0123456789abcdef0123456789abcdef0123456789abcdef0123456789abcdef")
+		v := Gen(rt, GenOpts{})
+		b := Build(w, v)
+		if b.F.Malformed != "" || len(b.F.Reencoded) > 0 || len(b.F.Sigs) != 1 {
+			return
+		}
+		parts := strings.Split(string(b.Token), "..")
+		if len(parts) != 2 {
+			rt.Fatalf("detached token with %d parts: %s", len(parts), b.Token)
+		}
+		sig, ok := lenientB64(parts[1])
+		if !ok {
+			rt.Fatalf("signature does not decode")
+		}
+		f := b.F.Sigs[0]
+		input := []byte(parts[0] + "." + string(w.Payload))
+		for role, k := range Keys(v) {
+			got := VerifyRaw(k.Public(), k.Type, w.nat(k), input, sig)
+			want := f.SignedBy == role && f.SignedNat
+			if got != want {
+				rt.Fatalf("role %s: reference verifier (alg from key) says %v, facts say signed_by=%q signed_with=%q nat=%v", role, got, f.SignedBy, f.SignedWith, f.SignedNat)
+			}
+		}
+		vd := Truth(w, b.F)
+		if vd.MustAccept && !VerifyRaw(Keys(v)[Victim].Public(), v.VKey, w.nat(Keys(v)[Victim]), input, sig) {
+			rt.Fatalf("must-accept token does not verify")
+		}
+	})
+}
